@@ -640,6 +640,23 @@ func TestC28(t *testing.T) {
 						pieces = s.Stream.Encode()
 					}
 					c28Mutate(base, c.Mode == "presign", pieces, func(kind, detail string, w *c28Wire) { eval(kind, detail, w, 0) })
+					// the same request as a minimal signer would send it (only host, x-amz-* and Content-MD5
+					// signed): Content-Length, Content-Type ... can then change without touching a signed header
+					if c.Mode != "presign" && !c29IsStream(c.Mode) && len(base.Body) > 0 {
+						if min, ok := c28ResignMinimal(base); ok {
+							if v, r := c28Verify(min, cfg), c29Serve(h, min.Bytes()); v.Valid && r.Reached && r.AuthOK && r.Status == 200 {
+								c28Mutate(min, false, nil, func(kind, detail string, w *c28Wire) {
+									if kind != "identity" {
+										eval("minimal-signer/"+kind, detail, w, 0)
+									}
+								})
+							} else {
+								mu.Lock()
+								run.Note("minimal-signer form of %s not usable: reference valid=%v (%s), server %s", c, v.Valid, v.Reason, r.Outcome())
+								mu.Unlock()
+							}
+						}
+					}
 					// requests legitimately signed at a time outside the validity window
 					offs := []int{-16 * 60, 16 * 60, -86400, 86400, -370 * 86400}
 					if c.Mode == "presign" {
@@ -690,12 +707,12 @@ func TestC28(t *testing.T) {
 							k[0]++
 							distinct[x.hash] = struct{}{}
 							if x.accepted {
-								report("accepted:"+x.kind+family, fmt.Sprintf("altered request authenticated as %s: %s, mutation %s %s (reference: %s)", x.acceptedKey, c, x.kind, x.detail, x.reason), rp)
+								report("accepted:"+strings.TrimPrefix(x.kind, "minimal-signer/")+family, fmt.Sprintf("altered request authenticated as %s: %s, mutation %s %s (reference: %s)", x.acceptedKey, c, x.kind, x.detail, x.reason), rp)
 							}
 						case x.accepted:
 							k[1]++
 							if x.acceptedKey != c29Key {
-								report("wrong-key:"+x.kind+family, fmt.Sprintf("request valid for %s authenticated as %s: %s, mutation %s %s", c29Key, x.acceptedKey, c, x.kind, x.detail), rp)
+								report("wrong-key:"+strings.TrimPrefix(x.kind, "minimal-signer/")+family, fmt.Sprintf("request valid for %s authenticated as %s: %s, mutation %s %s", c29Key, x.acceptedKey, c, x.kind, x.detail), rp)
 							}
 						default:
 							k[2]++
